@@ -19,12 +19,23 @@ from tools.lib import common
 
 CORPUS = common.ROOT / "corpus" / "C15"
 MODEL_SPECS = [
-    # (name, reaction file, dynamics, alignment)
-    ("jpsi_gamma_pi0_pi0 / no dynamics", "jpsi_gamma_pi0_pi0", None, None),
-    ("jpsi_gamma_pi0_pi0 / BW with form factor + energy-dependent width", "jpsi_gamma_pi0_pi0", "bw_ff_edw", None),
-    ("d0_k0_kp_km canonical / BW with form factor + energy-dependent width", "d0_k0_kp_km_canonical", "bw_ff_edw", None),
-    ("jpsi_k0_sigma_pbar / BW / DalitzPlotDecomposition", "jpsi_k0_sigma_pbar", "bw", "dpd"),
+    # (label, reaction file, dynamics, options); the first four are always run, the others cover the public
+    # builder options (quick tier: the helicity-coupling models and a seeded sample, thorough: all)
+    ("jpsi_gamma_pi0_pi0 / no dynamics", "jpsi_gamma_pi0_pi0", None, {}),
+    ("jpsi_gamma_pi0_pi0 / BW with form factor + energy-dependent width", "jpsi_gamma_pi0_pi0", "bw_ff_edw", {}),
+    ("d0_k0_kp_km canonical / BW with form factor + energy-dependent width", "d0_k0_kp_km_canonical", "bw_ff_edw", {}),
+    ("jpsi_k0_sigma_pbar / BW / DalitzPlotDecomposition", "jpsi_k0_sigma_pbar", "bw", {"align": "dpd"}),
+    ("jpsi_gamma_pi0_pi0 / use_helicity_couplings", "jpsi_gamma_pi0_pi0", None, {"use_helicity_couplings": True}),
+    ("jpsi_k0_sigma_pbar / use_helicity_couplings / BW", "jpsi_k0_sigma_pbar", "bw", {"use_helicity_couplings": True}),
+    ("d0_k0_kp_km canonical / use_helicity_couplings / BW ff+edw", "d0_k0_kp_km_canonical", "bw_ff_edw", {"use_helicity_couplings": True}),
+    ("jpsi_gamma_pi0_pi0 / scalar_initial_state_mass + stable_final_state_ids / BW", "jpsi_gamma_pi0_pi0", "bw_ff_edw",
+     {"scalar_initial_state_mass": True, "stable_final_state_ids": "all"}),
+    ("jpsi_gamma_pi0_pi0 / stable_final_state_ids = {1}", "jpsi_gamma_pi0_pi0", None, {"stable_final_state_ids": [1]}),
+    ("d0_k0_kp_km canonical / naming: parent helicities, no child helicities", "d0_k0_kp_km_canonical", "bw",
+     {"insert_parent_helicities": True, "insert_child_helicities": False}),
+    ("jpsi_k0_sigma_pbar / AxisAngleAlignment", "jpsi_k0_sigma_pbar", None, {"align": "axis"}),
 ]
+N_ALWAYS = 7  # models run in every tier (incl. all helicity-coupling models)
 ATTRS = ["intensity", "amplitudes", "parameter_defaults", "kinematic_variables", "components", "reaction_info"]
 
 
@@ -33,14 +44,20 @@ def quiet():
     logging.disable(logging.CRITICAL)
 
 
-def build_model(reaction_name: str, dynamics, alignment):
+def build_model(reaction_name: str, dynamics, options=None):
     import qrules
 
     import ampform
     from ampform.dynamics.builder import RelativisticBreitWignerBuilder
     from ampform.helicity.align.dpd import DalitzPlotDecomposition, relabel_edge_ids
 
+    from ampform.helicity.align.axisangle import AxisAngleAlignment
+
     quiet()
+    options = options or {}
+    if isinstance(options, str):
+        options = {"align": options}
+    alignment = options.get("align")
     reaction = qrules.io.fromdict(json.loads((CORPUS / f"{reaction_name}.json").read_text()))
     if alignment == "dpd":
         reaction = relabel_edge_ids(reaction)
@@ -49,6 +66,18 @@ def build_model(reaction_name: str, dynamics, alignment):
         builder.config.spin_alignment = DalitzPlotDecomposition(reference_subsystem=1)
         builder.config.scalar_initial_state_mass = True
         builder.config.stable_final_state_ids = list(reaction.final_state)
+    if alignment == "axis":
+        builder.config.spin_alignment = AxisAngleAlignment()
+    if options.get("use_helicity_couplings"):
+        builder.config.use_helicity_couplings = True
+    if options.get("scalar_initial_state_mass"):
+        builder.config.scalar_initial_state_mass = True
+    if options.get("stable_final_state_ids") is not None:
+        ids = options["stable_final_state_ids"]
+        builder.config.stable_final_state_ids = list(reaction.final_state) if ids == "all" else ids
+    for flag in ("insert_parent_helicities", "insert_child_helicities"):
+        if flag in options:
+            setattr(builder.naming, flag, options[flag])
     if dynamics:
         bw = RelativisticBreitWignerBuilder(form_factor=dynamics == "bw_ff_edw", energy_dependent_width=dynamics == "bw_ff_edw")
         for p in reaction.get_intermediate_particles():
@@ -378,3 +407,145 @@ def lean_roundtrips(exprs: list, ctx, variant=(0, 1)) -> list[tuple]:
         out.append((e, replies[i].strip(), replies[i + 1].strip()))
         i += 2
     return out
+
+
+# --------------------------------------------------------------------------- public expression-returning functions
+
+SKIP_MODULES = ("ampform.sympy._decorator", "ampform.sympy.deprecated", "ampform.sympy._cache", "ampform.io")
+SKIP_FUNCTIONS = {"perform_cached_doit", "relabel_edge_ids", "natural_sorting"}
+INT_PARAMS = {"state_id", "sibling_id", "isobar_id", "aligned_subsystem", "reference_subsystem", "rotated_state",
+              "rotated_state_id", "node_id", "index", "m", "n"}
+
+
+def _exprs_in(value, depth=0):
+    import sympy as sp
+
+    if isinstance(value, sp.Basic):
+        return [value]
+    if isinstance(value, sp.MatrixBase):
+        return [sp.ImmutableMatrix(value)]
+    out = []
+    if depth < 3:
+        if isinstance(value, dict):
+            for k, v in value.items():
+                out += _exprs_in(k, depth + 1) + _exprs_in(v, depth + 1)
+        elif isinstance(value, (list, tuple, set, frozenset)):
+            for v in value:
+                out += _exprs_in(v, depth + 1)
+    return out
+
+
+def public_function_outputs():  # noqa: C901, PLR0912, PLR0915
+    """Every public function of the package that can be called on symbols / a corpus reaction and
+    returns SymPy expressions: (label, expression) pairs plus a report of what was (not) called."""
+    import importlib
+    import inspect
+    import itertools
+    import pkgutil
+
+    import qrules
+    import sympy as sp
+
+    import ampform
+    from ampform.dynamics.builder import RelativisticBreitWignerBuilder, TwoBodyKinematicVariableSet
+    from ampform.kinematics.lorentz import FourMomentumSymbol, create_four_momentum_symbols
+
+    quiet()
+    reaction = qrules.io.fromdict(json.loads((CORPUS / "jpsi_k0_sigma_pbar.json").read_text()))
+    transition = reaction.transitions[0]
+    topology = transition.topology
+    momenta = create_four_momentum_symbols(topology)
+    resonance = next(iter(reaction.get_intermediate_particles()))
+    pool = TwoBodyKinematicVariableSet(
+        incoming_state_mass=sp.Symbol("m"), outgoing_state_mass1=sp.Symbol("m1"), outgoing_state_mass2=sp.Symbol("m2"),
+        helicity_theta=sp.Symbol("theta"), helicity_phi=sp.Symbol("phi"), angular_momentum=1)
+
+    def candidates(name):
+        n = name.lower()
+        if n in INT_PARAMS:
+            return [0, 1, 2, 3]
+        if n in {"angular_momentum"}:
+            return [sp.Symbol("L"), 1]
+        if n == "spin_magnitude":
+            return [sp.Rational(1, 2), 1]
+        if n in {"momentum", "p"}:
+            return [FourMomentumSymbol("p0", shape=[])]
+        if n in {"four_momenta", "momenta"}:
+            return [momenta]
+        if n == "topology":
+            return [topology]
+        if n == "transition":
+            return [transition]
+        if n in {"reaction", "obj"}:
+            return [reaction]
+        if n == "resonance":
+            return [resonance]
+        if n == "variable_pool":
+            return [pool]
+        if n in {"helicity_symbol", "m_prime", "symbol"}:
+            return [sp.Symbol("lambda_0" if n != "m_prime" else "mp")]
+        if n == "name":
+            return ["A"]
+        return [sp.Symbol(name)]
+
+    outputs, called, skipped = [], [], {}
+    mods = [importlib.import_module(m.name) for m in pkgutil.walk_packages(ampform.__path__, "ampform.")]
+    callables = []
+    for mod in sorted(mods, key=lambda m: m.__name__):
+        if mod.__name__.startswith(SKIP_MODULES):
+            continue
+        for name, fn in sorted(vars(mod).items()):
+            if inspect.isfunction(fn) and fn.__module__ == mod.__name__ and not name.startswith("_") and name not in SKIP_FUNCTIONS:
+                callables.append((f"{mod.__name__}.{name}", fn))
+    for ff, edw in itertools.product((False, True), repeat=2):
+        callables.append((f"RelativisticBreitWignerBuilder(form_factor={ff}, energy_dependent_width={edw})",
+                          RelativisticBreitWignerBuilder(form_factor=ff, energy_dependent_width=edw)))
+    for label, fn in callables:
+        try:
+            params = [p for p in inspect.signature(fn).parameters.values()
+                      if p.default is inspect.Parameter.empty and p.kind in (p.POSITIONAL_ONLY, p.POSITIONAL_OR_KEYWORD)]
+        except (TypeError, ValueError):
+            skipped[label] = "no signature"
+            continue
+        n_ok = 0
+        last_err = ""
+        for combo in itertools.islice(itertools.product(*[candidates(p.name) for p in params]), 40):
+            try:
+                value = fn(*combo)
+            except Exception as e:  # noqa: BLE001
+                last_err = f"{type(e).__name__}: {e}"[:120]
+                continue
+            exprs = _exprs_in(value)
+            if not exprs:
+                last_err = f"returns {type(value).__name__} without SymPy expressions"
+                continue
+            n_ok += 1
+            arg_txt = ", ".join(str(c)[:20] if isinstance(c, (int, str, sp.Basic)) else type(c).__name__ for c in combo)
+            for k, e in enumerate(exprs[:60]):
+                outputs.append((f"{label}({arg_txt})[{k}]", e))
+        if n_ok:
+            called.append(f"{label} ({n_ok} argument tuples)")
+        else:
+            skipped[label] = last_err or "no admissible arguments"
+    return outputs, {"called": called, "skipped": skipped}
+
+
+def has_unevaluated_node(e) -> bool:
+    """Does the expression contain an Add/Mul/Pow that SymPy would build differently (evaluate=False)?"""
+    import sympy as sp
+
+    for n in sp.preorder_traversal(e):
+        if isinstance(n, (sp.Add, sp.Mul, sp.Pow)):
+            try:
+                if n.func(*n.args) != n:
+                    return True
+            except Exception:  # noqa: BLE001
+                return True
+    return False
+
+
+def reevaluate(e):
+    """The expression rebuilt bottom-up with the evaluating constructors."""
+    if not e.args:
+        return e
+    return e.func(*[reevaluate(a) for a in e.args])
